@@ -1392,6 +1392,46 @@ GRAPHS = {
 }
 
 
+def builder_prefix_task(payload):
+    """JSONSchemaBuilder(dialect, all_refs, ref_prefix): every $ref of every schema it builds, and of the definitions it accumulates, is
+    <configured prefix without trailing slashes> + "/" + <name of a definition held by the builder>.  The builder treats the prefix as an
+    opaque string except for its trailing slashes, so the family {default, plain, one and several trailing slashes} x all_refs x dialect
+    is every case of the argument handling (enumerated on the real class)."""
+    (pid,) = payload
+    src = SCHEMA_PRELUDE + "\nT = Outer\n"
+    mod, _ = build.build_module(src)
+    obs = []
+    try:
+        for dname in ("DRAFT_2020_12", "OPEN_API_3_1"):
+            d = getattr(mod, dname)
+            for all_refs in (None, True):
+                for pref in (None, "#/components/x", "#/components/x/", "#/components/x//"):
+                    if all_refs is None and not d.all_refs:
+                        continue  # no reference is emitted at all
+                    oid = f"{pid}.G10[builder:{dname}/{'refs' if all_refs else 'default'}/{pref!r}]/ref_prefix"
+                    probs = []
+                    try:
+                        b = mod.JSONSchemaBuilder(d, all_refs=all_refs, ref_prefix=pref)
+                        docs = [b.build(mod.T).to_dict(), b.build(mod.Leaf).to_dict()]
+                        defs = b.get_definitions().to_dict()
+                        names = set((defs.get("definitions") or defs).keys()) if isinstance(defs, dict) else set()
+                        want = (pref if pref is not None else d.definitions_root_pointer).rstrip("/")
+                        refs = [r for doc in docs + [defs] for r in _refs(doc)]
+                        if not refs:
+                            probs.append("no $ref emitted (vacuous)")
+                        for r in refs:
+                            if not (r.startswith(want + "/") and r[len(want) + 1:] in names):
+                                probs.append(f"$ref {r!r} is not {want!r} + '/' + one of {sorted(names)}")
+                    except Exception as e:  # noqa
+                        probs.append(f"raised {type(e).__name__}: {e}"[:200])
+                    obs.append(dict(id=oid, status="proved" if not probs else "refuted", unit="JSONSchemaBuilder.__init__ / build / get_definitions", backend="enumeration",
+                                    detail="; ".join(sorted(set(probs)))[:500],
+                                    witness=({"confirmed": True, "source": src, "input": f"JSONSchemaBuilder({dname}, all_refs={all_refs}, ref_prefix={pref!r}).build(Outer)", "why": sorted(set(probs))[0]} if probs else None)))
+        return {"obligations": obs}
+    finally:
+        build.drop_module(mod)
+
+
 def check20(pid, tier):
     t0 = time.time()
     obs = []
@@ -1402,6 +1442,11 @@ def check20(pid, tier):
         import traceback
 
         crashes.append(f"S13: {type(e).__name__}: {e}\n{traceback.format_exc()[-600:]}")
+    for r in runner.run_pool(builder_prefix_task, [(pid,)], chunks=1):
+        if "crash" in r:
+            crashes.append(r["crash"] + " @ " + r["payload"] + "\n" + r["trace"][-600:])
+        else:
+            obs.extend(r["obligations"])
     payloads = [(pid, "type", t) for t in schema_types(tier)]
     flds = C20_FIELDS if tier == "thorough" else C20_FIELDS
     payloads += [(pid, "config", (c, f)) for c in C20_CONFIGS for f in flds]
